@@ -26,5 +26,5 @@ package types
 //@ func (*Votes).Validate
 //@ property C01 C19
 //@ requires v != nil
-//@ ensures err == nil ==> len(v.Voters) <= 32 && len(v.Signature) == crypto.SignatureLength
+//@ ensures err == nil ==> len(v.Voters) <= 32 && len(v.Signature) == goatcrypto.SignatureLength
 //@ modifies nothing
